@@ -151,7 +151,7 @@ func (c *Characteristic) updateValue(value interface{}, conn net.Conn, checkPerm
 		c.valueMutex.Lock()
 		defer c.valueMutex.Unlock()
 
-		if c.Value == value && !c.updateOnSameValue {
+		if sameValue(c.Value, value) && !c.updateOnSameValue {
 			return false
 		}
 
@@ -175,6 +175,18 @@ func (c *Characteristic) updateValue(value interface{}, conn net.Conn, checkPerm
 	if update() {
 		c.notifyChanges()
 	}
+}
+
+// sameValue returns true when a and b are the same value. Values which cannot be compared (a list or
+// an object, which a characteristic of a custom format stores as it arrives) are taken for different.
+func sameValue(a, b interface{}) (same bool) {
+	defer func() {
+		if recover() != nil {
+			same = false
+		}
+	}()
+
+	return a == b
 }
 
 // notifyChanges tells the listeners about the changes which are queued, one change after
